@@ -331,7 +331,11 @@ def do_edit(rng, mid):
     elif e == 'tracks.setitem':
         tracks[rng.randrange(len(tracks))] = rand_track(rng)
     elif e == 'tracks.extend':
-        tracks.extend([rand_track(rng, 2)])
+        new = [rand_track(rng, 2), rand_track(rng, 1)]
+        before = len(tracks)
+        tracks.extend(rng.choice((lambda x: x, iter, tuple, lambda x: (t for t in x)))(new))
+        if not (len(tracks) == before + 2 and tracks[-1] is new[-1]):
+            return 'tracks.extend HAD NO EFFECT ON THE FILE'
     elif e == 'tracks.reverse':
         tracks.reverse()
     elif e == 'tracks.clear':
@@ -342,7 +346,16 @@ def do_edit(rng, mid):
         tr = rng.choice(tracks)
         tr.insert(rng.randrange(len(tr) + 1), rand_msg(rng))
     elif e == 'track.extend':
-        rng.choice(tracks).extend([rand_msg(rng), rand_msg(rng)])
+        # any iterable will do for a list: a list, a tuple, a generator, map(), reversed(), an iterator
+        tr = rng.choice(tracks)
+        new = [rand_msg(rng), rand_msg(rng)]
+        before = len(tr)
+        how = rng.choice(('list', 'tuple', 'generator', 'map', 'reversed', 'iter'))
+        src = {'list': lambda: new, 'tuple': lambda: tuple(new), 'generator': lambda: (m for m in new), 'map': lambda: map(lambda m: m, new),
+               'reversed': lambda: reversed(new[::-1]), 'iter': lambda: iter(new)}[how]()
+        tr.extend(src)
+        if not (len(tr) == before + 2 and tr[-1] is new[-1] and tr[-2] is new[-2]):
+            return f'track.extend({how}) HAD NO EFFECT ON THE FILE'
     elif e == 'track.name=':
         tr = rng.choice(tracks)
         r_ = rng.random()
@@ -395,7 +408,10 @@ def do_edit(rng, mid):
     elif e == 'msg.time=':
         tr = rng.choice(ne)
         m = rng.choice(tr)
-        m.time = rng.choice((0, 1, 5, 480, m.time + 1))
+        v = rng.choice((0, 1, 5, 480, m.time + 1, int(m.time) if isinstance(m.time, float) and m.time == int(m.time) else 7))
+        m.time = v
+        if not (type(m.time) is type(v) and m.time == v):
+            return f'msg.time={v!r} HAD NO EFFECT (time is {m.time!r})'
     elif e == 'msg.attr=':
         tr = rng.choice(ne)
         m = rng.choice(tr)
@@ -435,7 +451,10 @@ def do_edit(rng, mid):
         # not storable: save() must refuse; a later edit repairs it
         tr = max(ne, key=len)
         m = tr[-1]
-        vars(m)['time'] = 0.5
+        if rng.random() < 0.5:
+            vars(m)['time'] = 0.5
+        else:
+            m.time = float(rng.choice((0, 96, 240)))          # beats * ticks_per_beat: a whole number, but a float
     elif e == 'insert-realtime':
         tr = max(ne, key=len)
         tr.append(Message('clock', time=1))
@@ -445,7 +464,10 @@ def do_edit(rng, mid):
                 if tr[i].type == 'clock':
                     del tr[i]
                 elif not isinstance(tr[i].time, int):
-                    tr[i].time = 2
+                    v = int(tr[i].time) if tr[i].time == int(tr[i].time) else 2          # (the int that equals the float, if there is one)
+                    tr[i].time = v
+                    if type(tr[i].time) is not int:
+                        return f'fix-unstorable: time={v!r} HAD NO EFFECT (time is {tr[i].time!r})'
     elif e == 'msg.tempo=':
         tempos = [m for t in tracks for m in t if m.type == 'set_tempo']
         if tempos:
